@@ -185,6 +185,10 @@ def lemma_at(vfile, line):
 def build_harness():
     src = V + '/tools/harness'
     sh(['cp', REPO + '/go.sum', src + '/go.sum'])
+    gomod = 'module harness\n\ngo 1.22.1\n\nrequire github.com/teivah/majorana v0.0.0\n\nreplace github.com/teivah/majorana => %s\n' % REPO
+    if not os.path.exists(src + '/go.mod') or open(src + '/go.mod').read() != gomod:
+        with open(src + '/go.mod', 'w') as f:
+            f.write(gomod)
     p = sh(['go', 'build', '-tags', 'verif', '-o', BUILD + '/harness', '.'], cwd=src)
     return p.returncode == 0, (p.stdout + p.stderr)[-3000:]
 
